@@ -12,6 +12,7 @@ checked by the correspondence harness only, and has its own recorded finding.
 -/
 import Hts.Lemmas.CachedReader
 import Hts.Lemmas.CacheContract
+import Hts.Lemmas.CacheReadAhead
 namespace Hts.Props.C03
 open Hts.Model.Cache Hts.Spec.CacheContract Hts.Model.CachedReader
 
@@ -211,6 +212,26 @@ def fifo_transparent_repaired_full : Prop :=
   ∀ (f : File), FileOK f → ∀ (ops : List (Op LCache)), (∀ op ∈ ops, OpOK fifoOps LCache.WF op) →
     ∀ outs, outputs Cfg.repaired fifoOps f ops = .ok outs →
       outputs Cfg.repaired fifoOps f (ops.map Op.uncached) = .ok outs
+
+/-! ### read-ahead with a cache (rd > 1): the recorded finding, pinned on an abstract transition system
+
+No refinement theorem is claimed for `rd > 1` with a cache: the worker goroutine skips members the cache holds at the
+moment it `Peek`s, and nothing keeps them there until the consumer `Get`s them (DESIGN §6 #28).  The two reachable
+bad states of the abstraction in Hts.Lemmas.CacheReadAhead: -/
+
+/-- consumer discards cap(working) delivered members that are not the one it wants → `panic("bgzf: unexpected block")` -/
+theorem readahead_with_cache_unexpected_block_witness :
+    (Hts.Model.ReadAheadCache.run Hts.Model.ReadAheadCache.start
+      (Hts.Model.ReadAheadCache.schedule ++ [.consumerTake])).map (·.cpc) = some .panicked :=
+  Hts.Model.ReadAheadCache.unexpected_block_witness
+
+/-- consumer waiting on `working`, worker parked on `control`, no step enabled -/
+theorem readahead_with_cache_deadlock_witness :
+    ((Hts.Model.ReadAheadCache.run { Hts.Model.ReadAheadCache.start with rd := 3, decs := 2 }
+        Hts.Model.ReadAheadCache.schedule).map
+      (fun s => (s.cpc, s.wnext, s.working, Hts.Model.ReadAheadCache.stuck s))) =
+      some (.scanning 2 2, none, [], true) :=
+  Hts.Model.ReadAheadCache.deadlock_witness
 
 /-! ### non-vacuity -/
 
